@@ -53,7 +53,6 @@ class ProgSet:
     def add(self, body, exp, rec, isolate=False, accept=None):
         """exp: expected printed value.  isolate: run the case in its own process under a timeout (its expected
         value may be "TIMEOUT").  accept: optional predicate(got) overriding the equality with exp."""
-        assert "\n" not in body
         self.cases.append((body, exp, rec))
         self.opts[len(self.cases) - 1] = (isolate, accept)
 
@@ -71,11 +70,15 @@ class ProgSet:
         if os.path.exists(lock):
             shutil.copy(lock, os.path.join(d, "Cargo.lock"))
         lines = ["#![allow(warnings)]", "use std::panic::{catch_unwind, AssertUnwindSafe};", self.prelude.replace("\n", " ")]
-        self.first_case_line = len(lines) + 1
-        idx = []
+        # a case usually is one line; bodies containing newlines (line continuations inside literals) span several
+        idx = []           # (first line, last line, case index)
+        cur = len(lines) + 1
         for k in live:
-            lines.append("fn case_%d() -> String { %s }" % (k, self.cases[k][0]))
-            idx.append(k)
+            text = "fn case_%d() -> String { %s }" % (k, self.cases[k][0])
+            nl = text.count("\n") + 1
+            lines.append(text)
+            idx.append((cur, cur + nl - 1, k))
+            cur += nl
         lines.append("fn main() { std::panic::set_hook(Box::new(|_| {})); let only: Option<usize> = std::env::args().nth(1).map(|x| x.parse().unwrap()); "
                      "let skip: &[usize] = &[%s]; let cases: &[(usize, fn() -> String)] = &[%s]; "
                      "for (i, f) in cases { if let Some(o) = only { if o != *i { continue; } } else if skip.contains(i) { continue; } "
@@ -103,11 +106,18 @@ class ProgSet:
                 break
             # which cases do not compile?  every case is exactly one line of src/main.rs
             bad = set()
-            for m in re.finditer(r"--> src/main\.rs:(\d+):\d+", p.stdout):
-                ln = int(m.group(1))
-                k = ln - self.first_case_line
-                if 0 <= k < len(idx):
-                    bad.add(idx[k])
+            level = ""
+            for ol in p.stdout.splitlines():
+                if ol.startswith("error"):
+                    level = "error"
+                elif ol.startswith("warning"):
+                    level = "warning"
+                m = re.search(r"--> src/main\.rs:(\d+):\d+", ol)
+                if m and level == "error":
+                    ln = int(m.group(1))
+                    for (a, b, k) in idx:
+                        if a <= ln <= b:
+                            bad.add(k)
             if not bad:
                 raise ToolError("generated program set %s does not compile and no case could be blamed:\n%s"
                                 % (self.name, core.tail(p.stdout, 60)))
